@@ -817,6 +817,25 @@ def _split_scaled(st, ax, c):
     return None
 
 
+def _exact_multiple(st, x, c):
+    """x is provably y - (y mod c) for a dividend y already divided by c (triple y = c*q + r): then x = c*q, so x / c = q and x % c = 0
+    for the truncating and for the Euclidean division alike.  Returns q or None."""
+    ax = AFF.get(x)
+    if ax is None or ax.mod:
+        return None
+    for r_, k in list(ax.co.items()):
+        if k != -1:
+            continue
+        for (y, c1, q1, r1) in TRIPLES.get(r_, ()):
+            if r1 != r_ or c1 != c:
+                continue
+            rest = Aff({s_: v for s_, v in ax.co.items() if s_ != r_}, ax.c0)
+            ay = aff_of(y)
+            if not ay.mod and rest.key() == ay.key() and rest.c0 == ay.c0:
+                return q1
+    return None
+
+
 def _reg_triple(x, c, q, r):
     t = (x, c, q, r)
     DIVMOD[(x, c)] = (q, r)
@@ -833,6 +852,10 @@ def divmod_vids(st, x, c):
         n = ax.c0
         qn = abs(n) // c * (1 if n >= 0 else -1)
         return const_vid(qn), const_vid(n - c * qn)
+    if got is None:
+        qm = _exact_multiple(st, x, c)
+        if qm is not None:
+            return qm, const_vid(0)
     if got is not None:
         q, r = got
     else:
@@ -907,7 +930,10 @@ def divmod_vids(st, x, c):
                     for o in a_.co:
                         USERS.setdefault(o, []).append(tgt)
         if q is None:
-            hl = _split_high_low(aff_of(x), c) if (x in AFF and trunc_ok) else None
+            ax_ = AFF.get(x)
+            # every term a multiple of c: the division is exact whatever the sign of x (truncating and Euclidean division agree)
+            exact_div = ax_ is not None and not ax_.mod and bool(ax_.co) and all(k_ % c == 0 for k_ in ax_.co.values()) and ax_.c0 % c == 0
+            hl = _split_high_low(aff_of(x), c) if (x in AFF and (trunc_ok or exact_div)) else None
             q = new_vid()
             r = new_vid()
             TERM[q] = ('Div', x, cv)
@@ -940,6 +966,10 @@ def divmod_vids(st, x, c):
             st.dead = True
             continue
         st.iv[v] = (lo, hi)
+    if xi[0] != -INF and xi[0] >= 0 and not st.dead:
+        # a non-negative dividend bounds its quotient and its remainder: x - x % c and x - x / c cannot underflow
+        rel_set(st, r, x, '<=')
+        rel_set(st, q, x, '<=')
     _enforce_triples(st, x, 0)
     return q, r
 
@@ -1094,6 +1124,10 @@ def divmod_euclid(st, x, c, force=False):
     lo, hi = get_iv(st, x)
     key = (x, c, 'euclid')
     got = DIVMOD.get(key)
+    if got is None:
+        qm = _exact_multiple(st, x, c)
+        if qm is not None:
+            return qm, const_vid(0)
     if got is None and lo >= 0 and not force:
         # coincides with truncating division in this state.  The truncating triple is exact (split into affine forms) only for dividends
         # that are non-negative in every state; for the others the Euclidean triple below is the more precise one and is equally valid here.
